@@ -143,6 +143,23 @@ def rule_r1(ctx) -> RuleResult:
         rr.bad(Finding("C18.R1", PFN, "parserfns.expr_fn.generic_binary", "ret = fn(ret, ret2) in a while loop",
                        "binary operators of one level are no longer folded strictly left to right{}: `2 ^ 3 ^ 2` must be (2^3)^2 = 64".format(
                            " (assoc={} is passed for {})".format("right", ", ".join(c[1] for c in right_calls)) if right_calls else ""), gb.lineno))
+    # ladder monotonicity: a level's parser refers only to itself (prefix chains) and to tighter-binding levels;
+    # the single way back up is parse_atom -> parse_expr inside parentheses.  An operand parser that calls a
+    # looser-binding level swallows the rest of the operator chain (`2e-3e3` becomes `2e-(3e3)`).
+    for i, name in enumerate(names):
+        fdef = m.funcs.get("expr_fn." + name)
+        if fdef is None:
+            continue
+        refs = {x.id for x in ast.walk(fdef) if isinstance(x, ast.Name) and x.id in names and x.id != name}
+        for r_ in sorted(refs):
+            j = names.index(r_)
+            if j > i or (name == "parse_atom" and r_ == names[0]):
+                continue
+            rr.bad(Finding("C18.R1", PFN, "parserfns.expr_fn." + name, "{} -> {}".format(name, r_),
+                           "`{}` (ladder level {}) calls the looser-binding `{}` (level {}) outside parentheses: the operand it parses "
+                           "swallows the rest of an operator chain, so the chain is no longer folded left".format(name, i, r_, j), fdef.lineno))
+        if not any(f_.construct.startswith(name + " -> ") for f_ in rr.findings):
+            rr.ok("parserfns.expr_fn." + name, "refers only to itself and tighter-binding levels", {"level_fn": name, "refs": sorted(refs)})
     # unary +/- bind tighter than everything but atoms
     pu = m.funcs.get("expr_fn.parse_unary")
     if pu is not None and "parse_atom(tok)" in unparse(pu) and names.index("parse_unary") == names.index("parse_atom") - 1:
@@ -282,5 +299,28 @@ def rule_r3(ctx) -> RuleResult:
     return rr
 
 
+def rule_r4(ctx) -> RuleResult:
+    """'plural selects by number': the value compared with "1" is the *evaluated* count on every path --
+    the normalised string expr_fn returns ("01", "1.0", "3-2" all give "1"), never the raw argument text."""
+    rr = RuleResult("C18.R4", "plural compares the evaluated count, on every path", min_instances=1)
+    fn = ctx.fn("parserfns.plural_fn")
+    cmps = [c for c in walk_no_nested(fn) if isinstance(c, ast.Compare) and len(c.ops) == 1 and isinstance(c.ops[0], (ast.Eq, ast.NotEq))
+            and isinstance(c.comparators[0], ast.Constant) and str(c.comparators[0].value) == "1" and isinstance(c.left, ast.Name)]
+    if not cmps:
+        raise AnalysisError("plural_fn: comparison with the singular value not found")
+    for c in cmps:
+        var = c.left.id
+        assigns = [n for n in walk_no_nested(fn) if isinstance(n, ast.Assign) and any(isinstance(t, ast.Name) and t.id == var for t in n.targets)]
+        raw = [n for n in assigns if not (isinstance(n.value, ast.Call) and unparse(n.value.func) == "expr_fn")]
+        if assigns and not raw:
+            rr.ok("parserfns.plural_fn", "{} is always the result of expr_fn".format(var), {"compared": unparse(c)})
+        else:
+            n = raw[0] if raw else c
+            rr.bad(Finding("C18.R4", PFN, "parserfns.plural_fn", unparse(n)[:70],
+                           "on this path the count compared with \"1\" is not the value evaluated by expr_fn: `{{{{plural:01|day|days}}}}` "
+                           "(e.g. a zero-padded count) selects the plural form", n.lineno))
+    return rr
+
+
 def run(ctx) -> list:
-    return [rule_r1(ctx), rule_r2(ctx), rule_r3(ctx)]
+    return [rule_r1(ctx), rule_r2(ctx), rule_r3(ctx), rule_r4(ctx)]
